@@ -384,63 +384,100 @@ def c01_5(ctx, ss):
         ctx.violation("C01.5", ckey(gf_, None, "find"), where(gf_, gf_.node), "_find_parsed_decays no longer stores get_decays(self._parsed_dec_file) followed by the duplicate check")
 
 
+def _removal_sites(ff):
+    """(kind, node, loop) for every removal from self._parsed_decays: 'by-value' = .remove(x),
+    'by-position' = del self._parsed_decays[i] / .pop(i)."""
+    out = []
+    for n in pf.walk_no_nested(ff.node):
+        if isinstance(n, ast.Call) and isinstance(n.func, ast.Attribute) and txt(n.func.value) == "self._parsed_decays":
+            if n.func.attr == "remove":
+                out.append(("by-value", n))
+            elif n.func.attr == "pop" and n.args:
+                out.append(("by-position", n))
+        elif isinstance(n, ast.Delete):
+            for t in n.targets:
+                if isinstance(t, ast.Subscript) and txt(t.value) == "self._parsed_decays":
+                    out.append(("by-position", n))
+    return out
+
+
 def c01_6(ctx, ss):
     ff, flow = fn(ss, DEC, "DecFileParser._check_parsed_decays")
     ctx.count("functions")
-    removes = [c for c in pf.calls_in(ff.node) if isinstance(c.func, ast.Attribute) and c.func.attr == "remove"
-               and txt(c.func.value) == "self._parsed_decays"]
-    if not removes:
-        # rebuild idiom?
-        raise AnchorMissing("_check_parsed_decays: no self._parsed_decays.remove(...) found (other de-duplication algorithm)")
-    for c in removes:
+    sites = _removal_sites(ff)
+    if not sites:
+        raise AnchorMissing("_check_parsed_decays: no removal from self._parsed_decays found (other de-duplication algorithm)")
+    for kind, c in sites:
         loops = enclosing(ff, c, (ast.For,))
         if not loops:
-            raise AnchorMissing("remove() outside a loop")
+            raise AnchorMissing("removal outside a loop")
         lp = loops[0]
         it = flow.expand(lp.iter)
         t = txt(it)
-        k = ckey(ff, lp, "direction")
-        if t in ("reversed(self._parsed_decays)", "self._parsed_decays[::-1]", "reversed(list(self._parsed_decays))", "list(reversed(self._parsed_decays))"):
+        k = ckey(ff, None, "direction")
+        backwards = ("reversed(self._parsed_decays)", "self._parsed_decays[::-1]", "reversed(list(self._parsed_decays))", "list(reversed(self._parsed_decays))",
+                     "reversed(range(len(self._parsed_decays)))", "range(len(self._parsed_decays) - 1, -1, -1)", "reversed(list(enumerate(self._parsed_decays)))")
+        forwards = ("self._parsed_decays", "list(self._parsed_decays)", "tuple(self._parsed_decays)", "self._parsed_decays[:]", "range(len(self._parsed_decays))",
+                    "enumerate(self._parsed_decays)", "list(enumerate(self._parsed_decays))")
+        if t in backwards:
             ctx.holds("C01.6", k, where(ff, lp), "removal loop walks the tables from the end, so the first block of a repeated mother is kept", 2)
-        elif t in ("self._parsed_decays", "list(self._parsed_decays)", "tuple(self._parsed_decays)", "self._parsed_decays[:]"):
+        elif t in forwards:
             ctx.violation("C01.6", k, where(ff, lp), "removal loop walks the tables from the front: the first block of a repeated mother is dropped (a later one kept)")
         else:
             raise AnchorMissing(f"removal loop iterates `{t}`: direction not understood")
-        # removed object is the loop variable, under `name in to_remove` with the matching bookkeeping remove
-        okv = len(c.args) == 1 and isinstance(c.args[0], ast.Name) and isinstance(lp.target, ast.Name) and c.args[0].id == lp.target.id
-        conds = [cd for cd in guards.path_conditions(lp, stmt_of(ff, c)) if cd[0] == "if"]
+        # WHICH element is removed: the visited one, by position or identity — never by value equality
+        kk = ckey(ff, None, "removes-visited")
+        st = stmt_of(ff, c) if isinstance(c, ast.Call) else c
+        if kind == "by-value":
+            ctx.violation("C01.6", kk, where(ff, c),
+                          "`self._parsed_decays.remove(tree)` removes the FIRST element that compares equal, and Lark trees compare by content: when a mother is "
+                          "repeated with an identical block the first block is removed instead of the visited later one, so the table moves to the later position "
+                          "(tables no longer in file order: A, B, A → B, A)")
+        else:
+            idx = c.args[0] if isinstance(c, ast.Call) else c.targets[0].slice
+            tv = lp.target.elts[0] if isinstance(lp.target, ast.Tuple) else lp.target
+            if isinstance(idx, ast.Name) and isinstance(tv, ast.Name) and idx.id == tv.id:
+                ctx.holds("C01.6", kk, where(ff, c), "the visited table is removed by its position", 2)
+            else:
+                ctx.violation("C01.6", kk, where(ff, c), f"the removed position `{txt(idx)}` is not the position being visited")
+        conds = [cd for cd in guards.path_conditions(lp, st) if cd[0] == "if"]
         oktest = False
         lst = None
         if len(conds) == 1 and conds[0][2]:
             e = conds[0][1]
             if isinstance(e, ast.Compare) and len(e.ops) == 1 and isinstance(e.ops[0], ast.In) and isinstance(e.comparators[0], ast.Name):
                 lst = e.comparators[0].id
-                lhs = flow.expand(e.left)
-                oktest = "children[0].children[0].value" in txt(lhs) or "get_decay_mother_name" in txt(lhs)
-        if okv and oktest:
-            ctx.holds("C01.6", ckey(ff, c, "what"), where(ff, c), "removes the visited tree when its mother name is still pending removal", 3)
+                lhs = txt(flow.expand(e.left))
+                visited = "__elem__(" in lhs or f"self._parsed_decays[{txt(lp.target)}]" in lhs
+                oktest = ("children[0].children[0].value" in lhs or "get_decay_mother_name" in lhs) and visited
+        if oktest:
+            ctx.holds("C01.6", ckey(ff, None, "what"), where(ff, c), "a table is removed when ITS mother name is still pending removal", 3)
         else:
-            ctx.violation("C01.6", ckey(ff, c, "what"), where(ff, c), "the tree removed is not the visited one guarded by its own mother name")
+            ctx.violation("C01.6", ckey(ff, None, "what"), where(ff, c), "the removal is not guarded by the visited table's own mother name being pending")
             continue
         # bookkeeping: the pending list loses one entry per removal and was built with count-1 entries per name
         book = [x for x in pf.calls_in(lp) if isinstance(x.func, ast.Attribute) and x.func.attr == "remove" and txt(x.func.value) == lst]
-        if not book or stmt_of(ff, book[0]) not in [s for s in pf.iter_stmts(lp.body)]:
-            ctx.violation("C01.6", ckey(ff, lp, "bookkeeping"), where(ff, lp), "a removed name is not taken off the pending list: every block of a repeated mother is removed")
+        if not book or stmt_of(ff, book[0]) not in [s_ for s_ in pf.iter_stmts(lp.body)]:
+            ctx.violation("C01.6", ckey(ff, None, "bookkeeping"), where(ff, lp), "a removed name is not taken off the pending list: every block of a repeated mother is removed")
         else:
-            ctx.holds("C01.6", ckey(ff, lp, "bookkeeping"), where(ff, lp), "one pending entry consumed per removal", 1)
-        ext = [x for x in pf.calls_in(ff.node) if isinstance(x.func, ast.Attribute) and x.func.attr in ("extend", "append") and txt(x.func.value) == lst]
+            ctx.holds("C01.6", ckey(ff, None, "bookkeeping"), where(ff, lp), "one pending entry consumed per removal", 1)
+        ext = [x for x in pf.calls_in(ff.node) if isinstance(x.func, ast.Attribute) and x.func.attr in ("extend", "append", "update", "add") and txt(x.func.value) == lst]
         okc = False
         for x in ext:
             a = flow.expand(x.args[0]) if x.args else None
-            if isinstance(a, ast.BinOp) and isinstance(a.op, ast.Mult):
+            if x.func.attr == "extend" and isinstance(a, ast.BinOp) and isinstance(a.op, ast.Mult):
                 lst_side, n_side = (a.left, a.right) if isinstance(a.left, ast.List) else (a.right, a.left)
                 if isinstance(lst_side, ast.List) and len(lst_side.elts) == 1 and isinstance(n_side, ast.BinOp) and isinstance(n_side.op, ast.Sub) \
                         and isinstance(n_side.right, ast.Constant) and n_side.right.value == 1 and ".count(" in txt(n_side.left):
                     okc = True
-        if okc:
-            ctx.holds("C01.6", ckey(ff, None, "count-1"), where(ff, ff.node), "count-1 removals are scheduled per repeated mother", 2)
+        # the pending collection must be able to hold a name several times
+        init = [d for d in flow.defs if d.name == lst and d.kind == "assign"]
+        multi = bool(init) and all(isinstance(d.value, ast.List) or (isinstance(d.value, ast.Call) and txt(d.value.func) in ("list", "Counter", "collections.Counter")) for d in init)
+        if okc and multi:
+            ctx.holds("C01.6", ckey(ff, None, "count-1"), where(ff, ff.node), "count-1 removals are scheduled per repeated mother (in a list, which keeps multiplicities)", 2)
         else:
-            ctx.violation("C01.6", ckey(ff, None, "count-1"), where(ff, ff.node), "the number of scheduled removals per repeated mother is not count-1")
+            ctx.violation("C01.6", ckey(ff, None, "count-1"), where(ff, ff.node),
+                          "the number of scheduled removals per repeated mother is not count-1 (a set / wrong count loses the multiplicity: a mother in three blocks keeps two tables)")
 
 
 CALLBACKS = {"DecayModelAliasReplacement": {"model"}, "DecayModelParamValueReplacement": {"model_options"},
